@@ -12,7 +12,17 @@ pub const LINES: &[&str] = &["\n", "\r", "\r\n", "\n\n", " \n", "\n "];
 pub const ANSI_OK: &[&str] = &["\x1b[0m", "\x1b[31m", "\x1b[1;32m", "\x1b]8;;http://x\x1b\\", "\x1b]8;;\x1b\\", "\x1b]0;t\x07", "\x1b[m"];
 pub const ANSI_BAD: &[&str] = &["\x1b", "\x1b[", "\x1b]", "\\", "\x07", "m", "@", "~", "0", ";", "[", "]", "\x1b ", "\x1b[1 q", "\x1b]0; \x07", "\x1b]8;;http://a-b\x1b\\", "\x1b\x1b"];
 pub const PREFIX: &[&str] = &[" ", "-", "+", "*", ">", "#", "/", "  ", "> ", "- "];
-pub const WS: &[&str] = &[" ", "\t", "\u{a0}", "\u{2003}", "  ", "\u{c}", "\r"];
+pub const WS: &[&str] = &[" ", "\t", "\u{a0}", "\u{2003}", "  ", "\u{c}", "\r",
+    // the rest of `char::is_whitespace` (VT is whitespace for `char` but not for `u8::is_ascii_whitespace`)
+    "\u{b}", "\u{85}", "\u{1680}", "\u{2000}", "\u{2002}", "\u{2005}", "\u{200a}", "\u{2028}", "\u{2029}", "\u{202f}", "\u{205f}", "\u{3000}",
+    // look-alikes that are NOT whitespace
+    "\u{1c}", "\u{1f}", "\u{200b}", "\u{180e}", "\u{feff}", "\u{2800}"];
+/// ASCII characters at the boundaries of the byte-class predicates a fast path is likely to be
+/// keyed on (`is_ascii`, `is_ascii_graphic`, `is_ascii_control`, `is_ascii_whitespace`,
+/// `is_ascii_alphanumeric`, `b >= b' '`, `b < 0x7f`): C0 controls, DEL, the first and last
+/// printable characters, the neighbours of the digit and letter ranges, and the first
+/// non-ASCII code points
+pub const ASCII_EDGE: &[&str] = &["\u{0}", "\u{1}", "\u{7}", "\u{8}", "\u{b}", "\u{c}", "\u{e}", "\u{1a}", "\u{1c}", "\u{1f}", "\u{7f}", "\u{7f}", "~", "!", "/", ":", "@", "[", "`", "{", "0", "9", "A", "Z", "z", "\u{80}", "\u{9c}", "\u{9f}"];
 
 #[derive(Clone, Copy, Debug, PartialEq, Eq, Hash)]
 pub enum Flavor {
@@ -79,6 +89,18 @@ pub fn para(rng: &mut Rng, fl: Flavor, max_tokens: usize) -> String {
     let n = rng.below(max_tokens + 1);
     let mut s = String::new();
     for _ in 0..n {
+        // every flavour, the plain one included: an ASCII character from the edge of a byte class,
+        // alone or inside an otherwise plain word (the word stays all-ASCII)
+        if rng.chance(1, 16) {
+            if rng.chance(1, 2) {
+                s.push_str(*rng.pick(PLAIN));
+            }
+            s.push_str(*rng.pick(ASCII_EDGE));
+            if rng.chance(1, 2) {
+                s.push_str(*rng.pick(PLAIN));
+            }
+            continue;
+        }
         if fl != Flavor::Plain && rng.chance(1, 12) {
             let c = exotic(rng);
             if c != '\n' {
@@ -161,8 +183,20 @@ pub fn small_width(rng: &mut Rng) -> usize {
     rng.range(0, 11)
 }
 
+/// a penalty around the limits of the narrower integer types (kept below 2^35 so that costs of
+/// short paragraphs stay exactly representable)
+#[cfg(target_pointer_width = "64")]
+pub fn big_penalty(rng: &mut Rng) -> usize {
+    [0usize, 1, 255, 256, 65535, 65536, (1 << 31) - 1, 1 << 31, (1 << 32) - 1, 1 << 32, (1 << 32) + 1, 5_000_000_000, 6_000_000_000, 1 << 33, 1 << 34][rng.below(15)]
+}
+#[cfg(not(target_pointer_width = "64"))]
+pub fn big_penalty(rng: &mut Rng) -> usize {
+    [0usize, 1, 255, 256, 65535, 65536][rng.below(6)]
+}
+
 pub fn penalties(rng: &mut Rng) -> [usize; 5] {
     match rng.below(6) {
+        3 => [big_penalty(rng), big_penalty(rng), rng.below(8), big_penalty(rng), big_penalty(rng)],
         0 => [0, 0, 0, 0, 0],
         1 => [rng.below(5), rng.below(5), rng.below(5), rng.below(5), rng.below(5)],
         2 => [rng.below(2000), rng.below(5000), rng.below(8), rng.below(50), rng.below(50)],
